@@ -158,3 +158,8 @@ pub fn run_bump(rec: &mut Rec, rng: &mut Rng, thorough: bool, scale: u64) {
 	}
 	rec.notes.insert("rule".into(), "PRNG-drawn (weight, inputs, dust, previous feerate, strategy, estimator) tuples with boundary-biased draws (around the relay increment + dust boundary, the 25% bump, the feerate floor, tiny weights) through the real feerate_bump / compute_fee_from_spent_amounts; synthetic PackageTemplates over all six PackageSolvingData variants (both channel types) through the real get_height_timer / package_locktime; every case is distinct by its op text".into());
 }
+
+/// (add-only, used by c07.rs `c07fee`) the synthetic channel parameters of `synth`, for the
+/// `verif_hooks::package::{compute_package_feerate, compute_package_output}` wrappers
+#[allow(dead_code)]
+pub fn synth_params(anchors: bool) -> ChannelTransactionParameters { synth(anchors).params }
